@@ -5,6 +5,7 @@ package interp
 
 import (
 	"fmt"
+	"go/token"
 	"go/types"
 	"strings"
 )
@@ -295,8 +296,11 @@ func init() {
 		}
 		return structure{uint64(0), t, (*value)(nil)}
 	}
+	// instants are Time{wall:0, ext:t} with t in abstract ticks; Sub is their difference (consistent across calls,
+	// no multiply by 10^9). Real saturation on overflow is not modelled (instants are below 2^60).
 	externals["(time.Time).Sub"] = func(fr *frame, a []value) value {
-		return fr.i.x.newSym("time.sub", types.Int64)
+		x, y := a[0].(structure)[1], a[1].(structure)[1]
+		return binop(fr.i.x, token.SUB, types.Typ[types.Int64], x, y)
 	}
 	externals["(time.Time).Add"] = func(fr *frame, a []value) value {
 		// result instant: arbitrary, not before the receiver when the duration is non-negative (not modelled: arbitrary > 0)
